@@ -743,6 +743,41 @@ pub mod caches {
     }
 }
 
+/// File naming (`src/file_names.rs`).
+pub mod names {
+    use std::path::Path;
+
+    use crate::file_names::{FileNameHandler, ParsedFileType};
+
+    /// kind: 'M' manifest, 'W' log, 'T' table, 'X' temp, 'C' CURRENT, 'L' LOCK. Returns the last
+    /// path component of the name the database uses.
+    pub fn file_name(kind: char, number: u64) -> String {
+        let h = FileNameHandler::new("db".to_string());
+        let p = match kind {
+            'M' => h.get_manifest_file_path(number),
+            'W' => h.get_wal_file_path(number),
+            'T' => h.get_table_file_path(number),
+            'X' => h.get_temp_file_path(number),
+            'C' => h.get_current_file_path(),
+            _ => h.get_lock_file_path(),
+        };
+        p.file_name().map(|n| n.to_string_lossy().to_string()).unwrap_or_default()
+    }
+
+    /// How a directory entry is recognised.
+    pub fn parse(name: &str) -> Option<(char, u64)> {
+        match FileNameHandler::get_file_type_from_name(Path::new(name)) {
+            Ok(ParsedFileType::ManifestFile(n)) => Some(('M', n)),
+            Ok(ParsedFileType::WriteAheadLog(n)) => Some(('W', n)),
+            Ok(ParsedFileType::TableFile(n)) => Some(('T', n)),
+            Ok(ParsedFileType::TempFile(n)) => Some(('X', n)),
+            Ok(ParsedFileType::CurrentFile) => Some(('C', 0)),
+            Ok(ParsedFileType::DBLockFile) => Some(('L', 0)),
+            Err(_) => None,
+        }
+    }
+}
+
 pub mod events {
     use std::sync::{Arc, RwLock};
 
